@@ -41,6 +41,11 @@ def shapes():
         ("one-vs-many-m8", 8, [[1, 1, 1], [99, 0, 1]], 0.01),
         ("three-items-m3", 3, [[1, 1, 0], [1, 0, 1], [1, 1, 1]], 1.0 / 3.0),
         ("two-bins", 2, [[1, 1, 0], [2, 1, 1], [1, 0, 1]], 0.5),
+        # nested sets whose fill ratios lie on either side of 3/4, 1/2 and 1/8 of the bins filled (empty fraction e^(-n/m)):
+        # the two sketches of a pair must be densified by the same rule whatever their fill ratio
+        ("straddle-quarter-empty-m128", 128, [[154, 1, 1], [51, 0, 1]], 154.0 / 205.0),      # 30 % / 20 % empty
+        ("straddle-half-empty-m128", 128, [[64, 1, 1], [64, 0, 1]], 0.5),                    # 61 % / 37 % empty
+        ("straddle-eighth-filled-m256", 256, [[20, 1, 1], [40, 0, 1]], 1.0 / 3.0),           # 92 % / 79 % empty
     ]
     return sh
 
@@ -82,6 +87,10 @@ def run(chk):
                 for ft, view, ids in (("f64", "u32", "low32"), ("f64", "u64", "paired"), ("f32", "float", "paired"), ("f64", "u32", "paired")):
                     cells.append(dict(kind="dens_%s_%s_%s_no" % (alg, ft, view), m=m, groups=groups, shape=name + "+idhash-" + ids,
                                       oracle=j, ids=ids, trials=trials_for(m, n, quick)))
+                # 4-byte items (the other arm of the identity hasher)
+                for ft, view in (("f64", "u64"), ("f32", "float")):
+                    cells.append(dict(kind="dens_%s_%s_%s_no32" % (alg, ft, view), m=m, groups=groups, shape=name + "+idhash32",
+                                      oracle=j, ids="paired32", trials=trials_for(m, n, quick)))
     res = freqfam.run_pairs(chk, cells, "pairs")
     freqfam.judge_pairs(chk, cells, res, "pairs", check_mse=False)
     chk.cov["pair_cells"] = len(cells)
